@@ -880,9 +880,11 @@ bool DTDScanner::scanAttValue(const   XMLCh* const        attrName
             }
              else
             {
+                //  XML 1.0, 3.3.3: only #x20 characters are trimmed and collapsed; a
+                //  #x9, #xA or #xD that was written as a character reference is kept.
                 if (curState == InWhitespace)
                 {
-                    if (!fReaderMgr->getCurrentReader()->isWhitespace(nextCh))
+                    if ((escaped && nextCh != chSpace) || !fReaderMgr->getCurrentReader()->isWhitespace(nextCh))
                     {
                         if (firstNonWS)
                             toFill.append(chSpace);
@@ -896,7 +898,8 @@ bool DTDScanner::scanAttValue(const   XMLCh* const        attrName
                 }
                  else if (curState == InContent)
                 {
-                    if (fReaderMgr->getCurrentReader()->isWhitespace(nextCh))
+                    if ((nextCh == chSpace) ||
+                        (fReaderMgr->getCurrentReader()->isWhitespace(nextCh) && !escaped))
                     {
                         curState = InWhitespace;
                         continue;
